@@ -198,3 +198,14 @@ fn c19_6_partial_cmp() {
     kani::cover!(a.clock == b.clock && a.ticks == b.ticks && a.fraction < b.fraction);
     kani::cover!(a.clock == b.clock && a.ticks > b.ticks && a.fraction < b.fraction);
 }
+
+// @ob id=C19.5i strength=complete tier=quick fn=clock/time.rs::<ClockTime as Add<u64>>::add
+// @req the injected #[kani::requires]: ticks + n does not overflow
+// @ens the injected #[kani::ensures] (kani/contracts.toml): ticks move by exactly n, fraction and clock are kept bit-exactly
+#[kani::proof_for_contract(<ClockTime as Add<u64>>::add)]
+#[kani::unwind(3)]
+fn c19_5i_contract_add_u64() {
+    let t = ClockTime { clock: ClockId(any_key()), ticks: kani::any(), fraction: kani::any() };
+    let r = t + kani::any::<u64>();
+    kani::cover!(r.ticks > t.ticks);
+}
